@@ -897,7 +897,10 @@ class Interp:
         if isinstance(v, OneShotIter):
             return self.iterate(v.take())
         if isinstance(v, GhostVal):
-            r = v.pv_iter()
+            try:
+                r = v.pv_iter()
+            except OutOfSubset:
+                return None          # indexable only: comprehensions fall back to the pointwise view
             return r if isinstance(r, list) else None
         if isinstance(v, tuple):
             return list(v)
